@@ -298,6 +298,49 @@ def _is_push(call: ast.Call) -> bool:
     return isinstance(call.func, ast.Attribute) and call.func.attr == 'push' and (core.dotted(call.func) or '').endswith('symbols.push')
 
 
+# what a parser object itself may hold (beyond the per-statement ``self.context``), one reason each
+PARSER_STATE_OK = {
+    '_sources': 'the source mapping the parser was created with (read-only afterwards)',
+    '_features': 'the feature mapping the parser was created with (read-only afterwards)',
+}
+
+
+def parser_stateless(ctx) -> None:
+    """What a parser produces is a function of the statement and the mappings it was created with: everything per statement
+    lives in ``self.context`` (a fresh one per nested statement, see context_isolation).  No method of ``parser.Visitor`` or of a
+    subclass stores to, or mutates a container held in, any other attribute of the parser - a memo of generated aliases,
+    tables or clauses would hand the objects of an earlier (sub)statement to the next one (a self-join then reads one alias
+    twice)."""
+    prog = ctx.prog
+    vis = prog.cls(f'{PARSER}:Visitor')
+    mut = {'setdefault', 'append', 'add', 'update', 'pop', 'clear', 'extend', 'insert', 'remove', 'popitem', 'discard', 'appendleft'}
+    n = 0
+    for ci in prog.subclasses(vis, strict=False):
+        for m, node in ci.methods.items():
+            fn = prog.func(f'{ci.ref}.{m}')
+            for x in ast.walk(node):
+                roots = []
+                if isinstance(x, (ast.Assign, ast.AugAssign, ast.AnnAssign, ast.Delete)):
+                    targets = x.targets if isinstance(x, (ast.Assign, ast.Delete)) else [x.target]
+                    roots = [t for tt in targets for t in (tt.elts if isinstance(tt, (ast.Tuple, ast.List)) else [tt])]
+                elif isinstance(x, ast.Call) and isinstance(x.func, ast.Attribute) and x.func.attr in mut:
+                    roots = [x.func.value]
+                for t in roots:
+                    chain = []
+                    base = t
+                    while isinstance(base, (ast.Subscript, ast.Attribute)):
+                        if isinstance(base, ast.Attribute):
+                            chain.append(base.attr)
+                        base = base.value
+                    if not (isinstance(base, ast.Name) and base.id == 'self' and chain):
+                        continue
+                    first = chain[-1]
+                    n += 1
+                    ok = first == 'context' or (first in PARSER_STATE_OK and m == '__init__' and ci is vis)
+                    ctx.check(ok, 'C06.context', fn, f'`{core.src(t)[:60]}`: a parser keeps nothing across statements but the mappings it was created with; per-statement data lives in self.context', x, key=f'parser-state:{ci.qual}.{m}:{first}')
+    ctx.floor('C06.parser-state', n, 10)
+
+
 def context_isolation(ctx) -> None:
     """Every (nested) statement is parsed in a context of its own: entering pushes the current context and installs a *fresh*
     one; the per-statement tables (symbols, push-down segments, opened origins, alias depth) are bound in Context.__init__
@@ -489,7 +532,7 @@ def shared_state(ctx) -> None:
     loops = []
     for mname in reader.methods:
         m = prog.func(f'{reader.ref}.{mname}')
-        for lp in core.walk_local(m.node):
+        for lp in ast.walk(m.node):  # nested helper functions included
             if isinstance(lp, ast.For) and any(isinstance(c, ast.Call) and isinstance(c.func, ast.Attribute) and ((c.func.attr == 'execute' and 'BACKEND' in core.src(c.func.value)) or (c.func.attr in reader.methods and c.func.attr != '__call__' and core.src(c.func.value) == 'self')) for c in ast.walk(lp)):
                 loops.append((m, lp))
     ctx.floor('C06.provision-all', len(loops), 1)
@@ -542,6 +585,7 @@ def run(ctx) -> None:
     defaults_precedence(ctx)
     automaton(ctx)
     shared_state(ctx)
+    parser_stateless(ctx)
     mods = [m for m in prog.modules if m.startswith(('forml.io.dsl.parser', 'forml.provider.feed', 'forml.io._input'))]
     n = shared.r_truthy(ctx, tenv, prog.functions(mods), rule='R-TRUTHY')
     shared.r_element(ctx, [f'{PARSER}:Container.Context.Tables.select'])
